@@ -146,9 +146,10 @@ static void* th_main(void* a) {
   for (int i = t->keep; i < t->nblocks; i++) { mi_free(t->out[i]); t->out[i] = NULL; }
   return NULL;
 }
-static const char* wl_names[] = { "small", "large", "huge", "aligned-huge", "threads8", "threads40", "heaps", "realloc", "mixed", "timed", "staggered", "arenas" };
-#define NWL 12
+static const char* wl_names[] = { "small", "large", "huge", "aligned-huge", "threads8", "threads40", "heaps", "realloc", "mixed", "timed", "staggered", "arenas", "hugepages" };
+#define NWL 13
 #define NWL_FOOT 11   /* (the arenas workload registers new arenas, which stay by design: fault mode only) */
+static int g_pinned_arena;     /* the workload reserved pinned (huge page) memory: it is never purged, by design */
 static int run_workload(int w) {
   switch (w) {
     case 0: /* small / medium churn over several pages */
@@ -230,6 +231,20 @@ static int run_workload(int w) {
       for (int i = 0; i < 32; i++) { mi_arena_id_t id; int e = mi_reserve_os_memory_ex(32 * MiB, false, false, false, &id); if (e != 0 && !(g_lenient && e == ENOMEM)) { VIOL("reserve-failed", "mi_reserve_os_memory_ex(32 MiB) #%d returned %d", i, e); return -1; } }
       if (w_alloc(48, 0, 0) || w_alloc(1 * MiB, 0, 1) || w_alloc(17 * MiB, 0, 0)) return -1;
       return w_free_all();
+    }
+    case 12: { /* hugepages: mi_reserve_huge_os_pages_at(3 x 1 GiB) -- the modelled OS grants such mappings for the duration of the call (ordinary untouched memory) --
+                  then 40 blocks of 30 MiB (more than one of the three pages), only their first and last byte touched */
+      g_pinned_arena = 1;
+      vf_os.grant_hugetlb = 1; (void)mi_reserve_huge_os_pages_at(3, -1, 0); vf_os.grant_hugetlb = 0;
+      static uint8_t* big[40]; int nb = 0;
+      for (int i = 0; i < 40; i++) {
+        uint8_t* p = (uint8_t*)mi_malloc(30 * MiB);
+        if (p == NULL) { if (g_lenient) { vf_err_count = 0; break; } VIOL("null-result", "mi_malloc(30 MiB) returned NULL"); return -1; }
+        if (!vf_os_accessible(p, 30 * MiB)) { VIOL("inaccessible", "mi_malloc(30 MiB) = %p is not inside accessible memory (block %d after a reservation of huge OS pages)", (void*)p, i); return -1; }
+        p[0] = 1; p[30 * MiB - 1] = 2; big[nb++] = p;
+      }
+      for (int i = 0; i < nb; i++) { if (big[i][0] != 1 || big[i][30 * MiB - 1] != 2) { VIOL("contents-changed", "30 MiB block %d changed", i); return -1; } mi_free(big[i]); }
+      return 0;
     }
     case 8: /* mixed */
       if (w_alloc(48, 0, 0) || w_alloc(8 * KiB, 0, 1) || w_alloc(1 * MiB, 0, 0) || w_alloc(17 * MiB, 0, 0) || w_alloc(64 * KiB, 4096, 0) || w_alloc(100 * KiB, 64 * MiB, 0)) return -1;
@@ -458,8 +473,8 @@ static void purge_case(long k) {
  * ============================================================================================== */
 #define NPLAN 6   /* 0: single failure at k; 1..4: persistent failure from k of mmap / mprotect / madvise / munmap; 5: persistent, all kinds */
 static const char* plan_names[] = { "single", "persist-mmap", "persist-mprotect", "persist-madvise", "persist-munmap", "persist-all" };
-static int g_wl_fault[] = { 0, 1, 2, 3, 4, 6, 7, 8, 11 };
-#define NWLF 9
+static int g_wl_fault[] = { 0, 1, 2, 3, 4, 6, 7, 8, 11, 12 };
+#define NWLF 10
 typedef struct fcase_s { int w; int plan; long k; long k2; } fcase_t;
 static fcase_t* g_fcases; static long g_nfcases;
 static long g_dry_calls[NWL];
@@ -486,7 +501,7 @@ static void recovery_and_quiescence(snap_t* base) {
     for (long k = 0; k < vf_os.ncalls && k < VF_MAX_CALLS; k++) if (vf_os.calls[k].failed && (vf_os.calls[k].kind == VF_C_MADVISE || (vf_os.calls[k].kind == VF_C_MPROTECT && vf_os.calls[k].arg == PROT_NONE))) refused_purges++;
     /* (a purge by reset only makes the pages reclaimable: they count as given back only when the modelled OS drops them at once) */
     const int purge_gives_back = (mi_option_is_enabled(mi_option_purge_decommits) || vf_os.reset_zero);
-    if (refused_purges == 0 && purge_gives_back && mi_option_get(mi_option_purge_delay) >= 0 && s.arena_resident_body > base->arena_resident_body) {
+    if (refused_purges == 0 && purge_gives_back && !g_pinned_arena && mi_option_get(mi_option_purge_delay) >= 0 && s.arena_resident_body > base->arena_resident_body) {
       VIOL("arena-still-committed-after-recovery", "after recovery + free-all + mi_collect(true): %zu bytes of arena memory (beyond segment descriptor slices) are still resident (baseline %zu) although no purge request was refused", s.arena_resident_body, base->arena_resident_body);
       return;
     }
@@ -592,6 +607,7 @@ int main(int argc, char** argv) {
     for (int wi = 0; wi < NWLF; wi++) {
       int w = g_wl_fault[wi]; long n = shared_dry[w];
       if (g_only_wl && strcmp(g_only_wl, wl_names[w]) != 0) continue;
+      if (w == 12 && g_only_wl == NULL) continue;      /* (the huge-page workload runs in jobs of its own: --only-workload hugepages) */
       for (int p = 0; p < NPLAN; p++) for (long k = 0; k < n; k++) {
 #if MI_DEBUG
         /* debug builds abort by design on a failing decommit (mi_assert_internal(err == 0) in mi_os_decommit_ex):
@@ -610,7 +626,7 @@ int main(int argc, char** argv) {
       }
     }
     ncases = g_nfcases; fn = fault_case;
-    vf_sample("OS calls per workload (dry run): small=%ld large=%ld huge=%ld aligned-huge=%ld threads8=%ld heaps=%ld realloc=%ld mixed=%ld arenas=%ld", shared_dry[0], shared_dry[1], shared_dry[2], shared_dry[3], shared_dry[4], shared_dry[6], shared_dry[7], shared_dry[8], shared_dry[11]);
+    vf_sample("OS calls per workload (dry run): small=%ld large=%ld huge=%ld aligned-huge=%ld threads8=%ld heaps=%ld realloc=%ld mixed=%ld arenas=%ld hugepages=%ld", shared_dry[0], shared_dry[1], shared_dry[2], shared_dry[3], shared_dry[4], shared_dry[6], shared_dry[7], shared_dry[8], shared_dry[11], shared_dry[12]);
   }
   else { fprintf(stderr, "unknown mode %s\n", g_mode); return 2; }
   if (replay) {
